@@ -170,7 +170,7 @@ FAULTS = ["none", "one", "two"]
 PLACEMENTS = ["inline", "xs-import", "wsdl-import-xsd", "wsdl-import-wsdl", "two-inline"]
 NS_MODES = ["distinct", "same"]
 FORMS = ["qualified", "unqualified"]
-ACTIONS = ["per-op", "empty", "absent", "url"]
+ACTIONS = ["per-op", "empty", "absent", "url", "first-only"]
 LOCATIONS = ["http://example.test/svc", "https://example.test:8443/svc?wsdl=1&v=2"]
 OPNAMES = ["Op", "getItem", "get_item"]
 MSGNAMES = ["convention", "soap-in-out"]
@@ -319,7 +319,9 @@ def build(*, n_ops=1, style="document", style_on="binding", shapes=None, header=
         else:
             mi, mo = msg(n + "SoapIn", pin), (msg(n + "SoapOut", pout) if pout is not None else w.ops[0].output.message)
         op = Operation(n, style, Side(mi), Side(mo), shape=shape)
-        op.soap_action = {"per-op": f"urn:svc/{n}", "empty": "", "absent": None, "url": f"http://example.test/a?x=1&y=2#{n}"}[action]
+        # "first-only": only the first operation announces an action (what an earlier operation says must not reach a later one)
+        op.soap_action = {"per-op": f"urn:svc/{n}", "empty": "", "absent": None, "url": f"http://example.test/a?x=1&y=2#{n}",
+                          "first-only": f"urn:svc/{n}" if not w.ops else None}[action]
         w.ops.append(op)
 
     op0 = w.ops[0]
